@@ -111,6 +111,12 @@ def run(ctx):
         c03.fill_flow(ctx, m, tw[0][0], rule="traded-volume-counter")
     else:
         ctx.lost("traded-volume-counter", "exactly one trade writer expected, found %d" % len(tw))
+    # "entry j equals the corresponding value of the live book": what is recorded is the level-2 snapshot, so the snapshot
+    # feeds (OrderBook::level_2_data, and Market::level_2_data for every asset) must be composed of exactly the live book's own
+    # queries of the same side and quantity, unconditionally (rule shared with C02 / C14)
+    from . import c02
+    from .c06 import _Prefixed
+    c02.views(_Prefixed(ctx, "feed-"), m)
 
 
 def step_rules(ctx, m, owners):
